@@ -117,4 +117,58 @@ def splitTarget (s : List Char) : List Char × List Char :=
   let noFrag := s.takeWhile (· != '#')
   (noFrag.takeWhile (· != '?'), (noFrag.dropWhile (· != '?')).drop 1)
 
+/-! ### `prepareRequest` as a whole (also used for the mirror pool)
+
+`PReq` is `spCtx.req` as `prepareRequest` reads it (after every earlier filter, e.g. a
+RequestAdaptor, edited it); `OutReq` is the `*http.Request` it builds (`stdr`). `host = ""`
+means `stdr.Host` was left unset: the transport then sends the URL's own host. -/
+
+structure PReq (π : Type) where
+  method : String
+  escapedPath : String     -- req.Std().URL.EscapedPath()
+  rawQuery : String        -- req.Std().URL.RawQuery
+  host : String            -- req.Host()
+  hdr : Hdr                -- req.HTTPHeader()
+  payload : π              -- req.GetPayload()
+  isStream : Bool          -- req.IsStream()
+deriving Repr, DecidableEq
+
+structure OutReq (π : Type) where
+  method : String
+  url : String
+  payload : Option π       -- the io.Reader handed to http.NewRequestWithContext
+  hdr : Hdr
+  host : String
+deriving Repr, DecidableEq
+
+/-- `serverPoolContext.prepareRequest(svr, ctx, mirror)` when `http.NewRequestWithContext` accepts
+the URL. `stub` is the constant reader a mirror pool sends instead of a stream body. -/
+def prepareRequest {π : Type} (canon : String → String) (hop : List String) (svr : ServerCfg)
+    (mirror : Bool) (stub : π) (q : PReq π) : OutReq π :=
+  { method := q.method
+    url := targetURL svr.url q.escapedPath q.rawQuery
+    payload := if mirror && q.isStream then some stub else some q.payload
+    hdr := cloneHeader canon hop q.hdr
+    host := if !svr.addrIsHostName || svr.keepHost then q.host else "" }
+
+/-- The Host header the transport puts on the wire for an `OutReq`. -/
+def OutReq.wireHost {π : Type} (o : OutReq π) (svr : ServerCfg) : String :=
+  if o.host == "" then svr.hostPort else o.host
+
+/-! ### String-level helpers used by the regenerated tie (`Gen/FactsC03IR.lean`) -/
+
+/-- `textproto.TrimString` on a Go string. -/
+def trimS (s : String) : String := String.ofList (trimString s.toList)
+
+/-- `strings.Split(s, ",")` on a Go string. -/
+def splitCommaS (s : String) : List String := (splitComma s.toList).map String.ofList
+
+/-- `net.ParseIP(host)` reduced to nil / non-nil through the oracle `isIP`. -/
+def parseIP (isIP : List Char → Bool) (host : List Char) : Option Unit := if isIP host then some () else none
+
+/-- `http.NewRequestWithContext(ctx, method, url, payload)`: fails exactly when `url` does not parse
+(oracle `urlOK`; the methods the mux lets through are valid tokens). -/
+def newRequest {π : Type} (urlOK : String → Bool) (method url : String) (payload : Option π) : OutReq π × Bool :=
+  (⟨method, url, payload, [], ""⟩, !urlOK url)
+
 end EgVerif.Proxy
